@@ -424,3 +424,89 @@ func Split(rng *simrt.Rand, full []Elem) (prefix, path []Elem) {
 	}
 	return append([]Elem(nil), full[:c]...), append([]Elem(nil), full[c:]...)
 }
+
+// ---------------------------------------------------------------- hostile
+
+// HostileNoti draws a protobuf-valid but adversarial notification for target:
+// empty and root paths, paths equal to or under "meta", prefix-only and
+// path-only addressing, missing or empty values, deprecated encodings, type
+// changes on existing leaves (also metadata leaves), atomic containers with
+// an empty prefix, wildcard deletes, nil prefix / nil path, huge key sets.
+func HostileNoti(rng *simrt.Rand, u *Universe, target string, ts int64) *Noti {
+	n := &Noti{Target: target, TS: ts}
+	metaNames := []string{"sync", "connected", "connectedAddress", "connectError", "targetLeaves", "targetLeavesAdded", "latestTimestamp", "targetSize", "nosuch"}
+	hval := func() Val {
+		switch rng.Pick(3, 2, 2, 2, 2, 6) {
+		case 0:
+			return Val{Kind: "none"}
+		case 1:
+			return Val{Kind: "empty"}
+		case 2:
+			return Val{Kind: "ascii", S: "x"}
+		case 3:
+			return Val{Kind: "dbl", I: int64(rng.Intn(3))}
+		case 4:
+			return Val{Kind: "ll"}
+		}
+		return RandVal(rng, true)
+	}
+	switch rng.Pick(10, 8, 10, 6, 8, 8, 4, 4, 6, 6, 5) {
+	case 0: // empty full path update
+		n.Ups = []Upd{{Path: nil, Val: hval()}}
+	case 1: // empty full path delete
+		n.Dels = [][]Elem{nil}
+	case 2: // meta paths, right and wrong value types
+		p := []Elem{{N: "meta"}}
+		if rng.Chance(0.8) {
+			p = append(p, Elem{N: metaNames[rng.Intn(len(metaNames))]})
+		}
+		if rng.Chance(0.3) {
+			n.Prefix, p = p[:1], p[1:]
+		}
+		if rng.Chance(0.3) {
+			n.Dels = [][]Elem{p}
+		} else {
+			n.Ups = []Upd{{Path: p, Val: hval()}}
+		}
+	case 3: // atomic with an element-less prefix
+		n.Atomic = true
+		n.Origin = u.Origins[rng.Intn(len(u.Origins))]
+		n.Ups = []Upd{{Path: RandElems(rng, 2, 0), Val: hval()}}
+		if rng.Chance(0.3) {
+			n.Dels = [][]Elem{RandElems(rng, 2, 0.3)}
+		}
+	case 4: // wildcard deletes, also on an empty target
+		n.Dels = [][]Elem{RandElems(rng, 3, 0.7)}
+		if rng.Chance(0.5) {
+			n.Dels = [][]Elem{{{N: "*"}}}
+		}
+	case 5: // value-less / odd-valued update of an ordinary (possibly existing) leaf
+		full := u.Leaves[rng.Intn(len(u.Leaves))]
+		n.Ups = []Upd{{Path: full, Val: hval(), DeprVal: rng.Chance(0.2)}}
+	case 6: // nil prefix
+		n.NilPfx = true
+		n.Ups = []Upd{{Path: RandElems(rng, 2, 0), Val: hval()}}
+	case 7: // nil path
+		n.Ups = []Upd{{NilPath: true, Val: hval()}}
+		if rng.Chance(0.5) {
+			n.Prefix = RandElems(rng, 2, 0)
+		}
+	case 8: // prefix-only addressing, deprecated encodings mixed
+		n.Prefix = RandElems(rng, 3, 0)
+		n.DeprPfx = rng.Chance(0.5)
+		n.Ups = []Upd{{Path: nil, Val: hval(), DeprPath: rng.Chance(0.5)}}
+	case 9: // huge key set, empty names, glob names in updates
+		e := Elem{N: []string{"", "*", "a"}[rng.Intn(3)], K: map[string]string{}}
+		for i := 0; i < 1+rng.Intn(40); i++ {
+			e.K[fmt.Sprintf("k%d", i)] = fmt.Sprintf("v%d", rng.Intn(3))
+		}
+		n.Ups = []Upd{{Path: []Elem{e}, Val: hval()}}
+	case 10: // many updates and deletes with the same path
+		p := RandElems(rng, 2, 0.2)
+		for i := 0; i < 2+rng.Intn(4); i++ {
+			n.Ups = append(n.Ups, Upd{Path: p, Val: hval()})
+			n.Dels = append(n.Dels, p)
+		}
+	}
+	return n
+}
